@@ -104,3 +104,12 @@ def _rng_eval(prog):
 
 # canaries/engine: inverse() applies F.dropout without training= (bad) / with training=self.training (good)
 canary.register("C12", "engine", _rng_eval, "BM-RNG")
+
+
+def _moment(prog):
+    from .rules.c19 import moment_findings
+
+    return moment_findings(prog)
+
+
+canary.register("C19", "linear", _moment, "NUM-MOMENT")
